@@ -269,8 +269,16 @@ class OpsMixin:
         if op == "Invert":
             if isinstance(a, (Obj, UVal)):
                 return self.call_method(a, "__invert__", [], {})
+            if isinstance(a, bool):
+                return ~a                       # Python: ~True == -2, ~False == -1
             if isinstance(a, SBool):
-                return SBool(z3.Not(a.t), False)
+                if self.ctx.branch(a.conc, "~:python-bool?"):
+                    return SInt(z3.If(a.t, z3.IntVal(-2), z3.IntVal(-1)), True)
+                return SBool(z3.Not(a.t), False)       # logical not on a boolean array
+            if isinstance(a, int):
+                return ~a
+            if isinstance(a, SInt):
+                return SInt(-1 - a.t, a.conc)
         if op == "UAdd":
             return a
         raise Unsupported(f"unary {op} on {a!r}")
@@ -727,6 +735,8 @@ class OpsMixin:
                 # x.shape[k]: a concrete Python int; for k = 0 it is the length of the leading axis
                 if z3.is_app(o.t) and o.t.decl().name() == "shape_of" and k == 0:
                     n = self.ctx.fn("axis0_len", U, z3.IntSort())(o.t.arg(0))
+                elif z3.is_app(o.t) and o.t.decl().name() == "shape_of":
+                    n = self.ctx.fn("axis_len", U, z3.IntSort(), z3.IntSort())(o.t.arg(0), z3.IntVal(k))
                 else:
                     n = self.ctx.fn("shape_dim", U, z3.IntSort(), z3.IntSort())(o.t, z3.IntVal(k))
                 self.ctx.assume(n >= 0)
